@@ -39,7 +39,9 @@ def prepare(tier):
 
 
 def gen_config(rng, tier, index=0):
-    return wl_ped.gen_config(rng, tier, "db")
+    cfg = wl_ped.gen_config(rng, tier, "db")
+    cfg["record_kernels"] = tier == "thorough" and index % 20 == 0
+    return cfg
 
 
 def execute(ctx):
@@ -53,6 +55,15 @@ def sut_exception_is_violation(e, ctx):
 
 def shrink_candidates(cfg, violation):
     return wl_ped.shrink_candidates(cfg, violation)
+
+
+def post_batch(tier, base_seed, results):
+    """Thorough tier: gibbs_probabilities / metropolis_hastings_probabilities recomputed COMPILED on visited states."""
+    from . import scn_c02
+    out = scn_c02.post_batch(tier, base_seed, results)
+    for v in out.get("violations", []):
+        v["message"] = v["message"].replace("gibbs_options / mh_options", "pedigree gibbs / MH probabilities")
+    return out
 
 
 def evidence(tier, results, counters):
